@@ -214,7 +214,8 @@ Definition utf8 (value : str) : str :=
     match utf8_decode value with Some s => s | None => value end
   else value.
 
-(* name.lower(): str and bytes have it, None and int do not *)
+(* name.lower() in add: str and bytes have it, None and int do not; it is
+   evaluated only after [name in self] succeeded, i.e. with a str *)
 Definition lower_arg (a : arg) : res arg :=
   match a with
   | AStr s => Ok (AStr (lower s))
@@ -222,8 +223,10 @@ Definition lower_arg (a : arg) : res arg :=
   | _ => Err AttributeError
   end.
 
-(* Headers.iso88591(name.lower()) *)
-Definition norm_name (name : arg) : res str := bind (lower_arg name) iso88591.
+(* Headers.iso88591(name).lower() : type check and transcoding first, case
+   folding (of the transcoded name) after *)
+Definition norm_name (name : arg) : res str :=
+  bind (iso88591 name) (fun w => Ok (lower w)).
 
 (* for k, val in self.__headers: if k.lower() == name: return val *)
 Fixpoint find_first (name : str) (s : state) : option str :=
@@ -321,22 +324,30 @@ Definition not_set_cookie (name : arg) : res bool :=
     | _ => Ok true                 (* bytes never equal a str *)
     end).
 
+(* if name in self and name.lower() != "set-cookie": raise KeyError *)
 Definition add (s : state) (name value : arg) : state * outcome :=
-  match not_set_cookie name with
+  match contains s name with
   | Err e => (s, Raised e)
   | Ok false => add_header s name (HArg value) []
   | Ok true =>
-      match contains s name with
+      match not_set_cookie name with
       | Err e => (s, Raised e)
       | Ok true => (s, Raised KeyError)
       | Ok false => add_header s name (HArg value) []
       end
   end.
 
+(* old = self.__headers; del self[name];
+   try: self.add_header(name, value)
+   except Exception: self.__headers = old; raise *)
 Definition setitem (s : state) (name value : arg) : state * outcome :=
   match delitem s name with
   | Err e => (s, Raised e)
-  | Ok s1 => add_header s1 name (HArg value) []
+  | Ok s1 =>
+      match add_header s1 name (HArg value) [] with
+      | (_, Raised e) => (s, Raised e)
+      | r => r
+      end
   end.
 
 Definition out_of_arg (a : arg) : outcome :=
@@ -599,19 +610,6 @@ Section Spec.
     end.
 End Spec.
 
-(* Operations on which the code is known to leave the reference (each is a
-   [_refuted] theorem): a name without .lower() (None, int) raises
-   AttributeError where TypeError/ValueError is required, and h[name]=value
-   with an unacceptable value deletes the entries of name before raising. *)
-Definition lowerable (a : arg) : bool :=
-  match a with AStr _ | ABytes _ => true | _ => false end.
-Definition benign (o : op) : bool :=
-  match o with
-  | OAdd n _ | ODel n | OSetdefault n _ | OGet n | OGetAll n
-  | OContains n | OGetItem n => lowerable n
-  | OSet n v => lowerable n && (negb (text_ok n) || text_ok v)
-  | _ => true
-  end.
 Definition strict_op (o : op) : bool :=
   match o with OInitRaw _ => false | _ => true end.
 
